@@ -56,7 +56,9 @@ RULE = ("MIDI files written with mido: resolutions from {1,7,24,48,96,100,480,96
         "patterns (drift), note-on velocity 0 as note-off, all groupings, meta selections and target indices, all 30 key names (each judged "
         "against the harness's own table of the format's key names), files whose tracks all start with a time signature at tick 0; "
         "notes that collapse to zero length after rescaling followed by notes of their key (D17's class), tracks listed in two groups in either "
-        "order (D20's class); non-trivial = resolution != 24 or more than one track")
+        "order (D20's class); files with a conductor track (signatures only, in no group) and sometimes an unused part, each loaded through the "
+        "public loader with the meta selection explicitly empty (only the grouped tracks are considered), left out (None: every track), the "
+        "conductor track, a random non-empty selection; non-trivial = resolution != 24 or more than one track")
 ASSUMPTIONS = ["mido's writer/reader assumed faithful",
                "the code accumulates IEEE doubles; the model uses exact rationals with round-half-even; both may differ only at exact .5 ties, where the oracle accepts either neighbour",
                "model: SCoda.convert (Model/Midi.lean), tied by correspondence"]
@@ -99,7 +101,9 @@ def o_load(inp):
     ppq, target = inp["ppq"], inp["target"]
     tracks = [[tuple(e) for e in t] for t in inp["tracks"]]
     groups = [list(g) for g in inp["groups"]]
-    meta_idx = list(inp["meta"])
+    # the meta selection as the caller passes it to the public loader: a list (possibly EMPTY: no track is selected for meta messages, the
+    # considered tracks are then exactly the grouped ones) or None (argument left out: the loader's default, every track of the file)
+    meta_idx = None if inp["meta"] is None else list(inp["meta"])
     mf = P.mido_file_from_events(ppq, tracks)
     fd, path = tempfile.mkstemp(suffix=".mid", dir=SCRATCH)
     os.close(fd)
@@ -115,7 +119,8 @@ def o_load(inp):
                 for e in inp["earlier"]:
                     try:
                         Sequence.sequences_load(midi_file=opened, track_indices=[list(g) for g in e["groups"]],
-                                                meta_track_indices=list(e["meta"]), target_meta_track_index=e["target"])
+                                                meta_track_indices=None if e["meta"] is None else list(e["meta"]),
+                                                target_meta_track_index=e["target"])
                     except Exception:
                         pass
                 loaded = Sequence.sequences_load(midi_file=opened, track_indices=groups, meta_track_indices=meta_idx,
@@ -181,7 +186,13 @@ def o_load(inp):
                 fails.append(("routing", H.Detail(f"group {gi}: expected union {norm_intervals(u)}, loaded {sounding(tl)}",
                                                   group=gi, expected=norm_intervals(u), loaded=sounding(tl))))
     # signatures
-    considered = [i for i in range(len(tracks)) if in_any(i) or i in meta_idx]
+    # which tracks are "considered" (the text: "all time and key signatures of the considered tracks on the designated meta sequence"; the
+    # docstrings: `track_indices` — which tracks are merged into which sequence, `meta_track_indices` — "indices of tracks of the MIDI file to
+    # consider for meta messages"): the grouped tracks and the tracks selected for meta messages.  Judged from the plain input: an EMPTY
+    # selection selects nothing (only the grouped tracks are considered; a conductor track outside every group contributes nothing), a
+    # selection left out (None) is the loader's default, all tracks of the file
+    selected = set(range(len(tracks))) if meta_idx is None else set(meta_idx)
+    considered = [i for i in range(len(tracks)) if in_any(i) or i in selected]
     exp_sigs = []
     for i in considered:
         for (ty, ch, cum, note, vel, num, den, key) in per_track[i]:
@@ -229,6 +240,15 @@ def o_load(inp):
             if sig_in_force(tl, ty, None) != exp_force:
                 fails.append(("meta", f"signature timeline: file {exp_force}, loaded {sig_in_force(tl, ty, None)}"))
     return fails
+
+
+def _cums(evs):
+    """running file ticks of a track's events"""
+    cum, out = 0, []
+    for e in evs:
+        cum += e[2]
+        out.append(cum)
+    return out
 
 
 def shared_track(inp):
@@ -392,6 +412,83 @@ def gen_track(rng, ppq, n_events, wf=True, zero=False):
     return evs
 
 
+def gen_conductor_file(rng, ppq):
+    """a type-1 file as notation programs write it: track 0 is a CONDUCTOR track (time and key signatures at tick 0 and later, tempo / text
+    events, no notes), the parts follow; the last part is sometimes an unused one (it has notes and signatures of its own but is left out of the
+    grouping).  -> (tracks, groups): the groups never list the conductor track"""
+    nt = rng.randint(2, 4)
+    cond = []
+    if rng.random() < 0.85:
+        n_, d_ = G.any_sig(rng)
+        cond.append((3, None, 0, None, None, None, None, n_, d_, None))
+    if rng.random() < 0.7:
+        cond.append((2, None, 0, None, None, None, None, None, None, rng.choice(KEYNAMES)))
+    for _ in range(rng.randint(0, 3)):
+        delta = rng.choice([ppq, 2 * ppq, 3 * ppq, 4 * ppq, rng.randint(1, max(1, 4 * ppq))])
+        k = rng.random()
+        if k < 0.45:
+            n_, d_ = G.any_sig(rng)
+            cond.append((3, None, delta, None, None, None, None, n_, d_, None))
+        elif k < 0.8:
+            cond.append((2, None, delta, None, None, None, None, None, None, rng.choice(KEYNAMES)))
+        else:
+            cond.append((1, None, delta, None, None, rng.choice([0, 1, 2, 5]), None, None, None, None))     # marker / text / tempo / cue
+    if not any(e[0] in (2, 3) for e in cond):
+        cond.append((3, None, 0, None, None, None, None, 3, 4, None))
+    parts = [gen_track(rng, ppq, rng.randint(2, 10), wf=True) for _ in range(nt - 1)]
+    idx = list(range(1, nt))
+    if nt >= 3 and rng.random() < 0.4:
+        idx = idx[:-1]                                    # the last part is in no group
+    mode = rng.random()
+    if mode < 0.5:
+        groups = [[j] for j in idx]
+    elif mode < 0.75:
+        groups = [idx]
+    else:
+        rng.shuffle(idx)
+        k_ = rng.randint(1, len(idx))
+        groups = [sorted(idx[:k_])] + ([sorted(idx[k_:])] if idx[k_:] else [])
+    return [cond] + parts, groups
+
+
+def op_convert_default_meta(ppq, target, groups, tracks, scratch_dir):
+    """correspondence request for a load whose meta selection is LEFT OUT (None): the model is asked with the documented default, every track
+    of the file; the implementation is called through the public loader without the argument"""
+    import tempfile
+    from scoda.sequences.sequence import Sequence
+    words, _ = P.op_convert(ppq, target, groups, list(range(len(tracks))), tracks, scratch_dir)
+
+    def f():
+        mf = P.mido_file_from_events(ppq, tracks)
+        fd, path = tempfile.mkstemp(suffix=".mid", dir=scratch_dir)
+        os.close(fd)
+        try:
+            mf.save(path)
+            seqs = Sequence.sequences_load(file_path=path, track_indices=[list(g) for g in groups], target_meta_track_index=target)
+        finally:
+            os.unlink(path)
+        return " | ".join(P.p_seq(s_) for s_ in seqs)
+    return words, P.guarded(f)
+
+
+def foreign_signature_track(tracks, groups, meta):
+    """does the file hold a track that is in no group and not selected for meta messages, and carries a time or key signature — the tracks
+    that must contribute NOTHING (for meta = None every track is selected: never)"""
+    if meta is None:
+        return False
+    return any(not any(i in g for g in groups) and i not in meta and any(e[0] in (2, 3) for e in t) for i, t in enumerate(tracks))
+
+
+# a conductor track with 6/8 and F major, two parts; the parts are the groups, the meta selection is explicitly EMPTY: the considered tracks
+# are the two parts, the meta sequence carries the default 4/4 and the key of part 1 only
+EMPTY_META_EXAMPLE = {"ppq": 48, "target": 0, "groups": [[1], [2]], "meta": [], "tracks": [
+    [(3, None, 0, None, None, None, None, 6, 8, None), (2, None, 0, None, None, None, None, None, None, "F"),
+     (3, None, 144, None, None, None, None, 3, 4, None)],
+    [(2, None, 6, None, None, None, None, None, None, "G"), (7, 0, 0, 60, 64, None, None, None, None, None),
+     (6, 0, 48, 60, 0, None, None, None, None, None)],
+    [(7, 1, 0, 48, 64, None, None, None, None, None), (7, 1, 96, 48, 0, None, None, None, None, None)]]}
+
+
 D20_EXAMPLE = {"ppq": 24, "target": 0, "groups": [[0], [0, 1]], "meta": [0], "tracks": [
     [(7, 0, 0, 60, 64, None, None, None, None, None), (6, 0, 24, 60, 0, None, None, None, None, None)],
     [(7, 0, 48, 62, 64, None, None, None, None, None), (6, 0, 24, 62, 0, None, None, None, None, None)]]}
@@ -411,6 +508,32 @@ def generate(ctx):
         ctx.check("load", {"ppq": 24, "target": 0, "groups": [[0]], "meta": [0], "tracks": [[
             (2, None, 0, None, None, None, None, None, None, other), (7, 0, 0, 60, 64, None, None, None, None, None),
             (2, None, 24, None, None, None, None, None, None, name), (6, 0, 24, 60, 0, None, None, None, None, None)]]})
+    # the meta selection as a caller of the public loader gives it (seeded change C13_agent8): explicitly EMPTY, left out (None), non-empty —
+    # on files with a conductor track (signatures, no notes, in no group) and sometimes an unused part with signatures of its own
+    ctx.check("load", EMPTY_META_EXAMPLE)
+    ctx.check("load", dict(EMPTY_META_EXAMPLE, meta=None))
+    ctx.check("load", dict(EMPTY_META_EXAMPLE, meta=[0]))
+    for i in range(ctx.n(40, 600)):
+        ppq = rng.choice([24, 48, 96, 100, 384, 480, 960, 997])
+        tracks, groups = gen_conductor_file(rng, ppq)
+        nt = len(tracks)
+        ctx.count("conductor-track-files")
+        if any(not any(j in g for g in groups) for j in range(1, nt)):
+            ctx.count("conductor-track-files:an-unused-part-in-no-group")
+        sel = [j for j in range(nt) if rng.random() < 0.5] or [rng.randrange(nt)]
+        for meta in ([], None, [0], sel):
+            target = rng.choice([0, 0, len(groups) - 1])
+            ctx.case((ppq, tracks, groups, meta, target), True)
+            ctx.count("meta-selection:" + ("left-out(None)" if meta is None else "explicitly-empty" if not meta else "non-empty"))
+            if foreign_signature_track(tracks, groups, meta):
+                ctx.count("ungrouped-unselected-track-carries-a-signature")
+            inp = {"ppq": ppq, "target": target, "tracks": tracks, "groups": groups, "meta": meta}
+            ctx.check("load", inp)
+            if i % 4 == 0 and not any(len(expected_tick(c_, ppq)) > 1 for t_ in tracks for c_ in _cums(t_)):
+                if meta is None:
+                    ctx.corr("convert", op_convert_default_meta(ppq, target, groups, tracks, ctx.scratch))
+                else:
+                    ctx.corr("convert", P.op_convert(ppq, target, groups, meta, tracks, ctx.scratch))
     for i in range(ctx.n(120, 2500)):
         ppq = rng.choice([1, 7, 24, 48, 96, 100, 480, 960, 997, 32767])
         nt = rng.randint(1, 4)
@@ -452,6 +575,14 @@ def generate(ctx):
             if rng.random() < 0.4:
                 groups.insert(rng.randint(0, len(groups)), [rng.randrange(nt)])
         meta = [j for j in range(nt) if rng.random() < 0.7] or [0]
+        r_ = rng.random()
+        if r_ < 0.12:
+            meta = []             # explicitly empty: only the grouped tracks are considered
+        elif r_ < 0.22:
+            meta = None           # left out: the loader's default, every track
+        ctx.count("meta-selection:" + ("left-out(None)" if meta is None else "explicitly-empty" if not meta else "non-empty"))
+        if foreign_signature_track(tracks, groups, meta):
+            ctx.count("ungrouped-unselected-track-carries-a-signature")
         target = rng.choice([0, 0, len(groups) - 1, rng.randint(-1, len(groups))])
         ctx.case((ppq, tracks, groups, meta, target), ppq != 24 or nt > 1)
         ctx.count("ppq:%d" % ppq)
@@ -483,6 +614,8 @@ def generate(ctx):
             ctx.count("track-in-two-groups(D20 class)")
         if tie:
             ctx.count("tie-skipped-correspondence")
+        elif meta is None:
+            ctx.corr("convert", op_convert_default_meta(ppq, target, groups, tracks, ctx.scratch))
         else:
             ctx.corr("convert", P.op_convert(ppq, target, groups, meta, tracks, ctx.scratch))
     # the parser, message by message: every mido kind the parser distinguishes, velocity 0, every key name mido accepts
